@@ -26,6 +26,11 @@ use quinn::{
 use verif_harness::sim::{client_config, content_byte, endpoint_config, server_config, SimClock};
 use verif_harness::Rng;
 
+#[path = "../asyncsim/drvwake.rs"]
+mod drvwake;
+#[path = "../asyncsim/qev.rs"]
+mod qev;
+
 const CLIENT: usize = 0;
 const SERVER: usize = 1;
 const SIDE: [&str; 2] = ["client", "server"];
@@ -186,6 +191,9 @@ struct WorldInner {
     send_fail: [bool; 2],
     io_errors: u64,
     transient_errors: u64,
+    /// every task ever absorbed by the executor (name, wake state, waker): lets the driver-wake oracle find the
+    /// task behind the waker a connection driver left in `State::driver`
+    registry: Vec<(String, Arc<TaskWaker>, Waker)>,
 }
 
 #[derive(Clone)]
@@ -595,6 +603,9 @@ enum Step {
 
 struct Exec {
     w: World,
+    /// the application's connection handles and the case log (driver-wake oracle)
+    hs: Hs,
+    log: Log,
     tasks: Vec<Task>,
     rng: Rng,
     policy: Policy,
@@ -612,6 +623,7 @@ impl Exec {
         let q: Vec<Spawn> = std::mem::take(&mut self.w.l().spawnq);
         for s in q {
             let waker = Waker::from(s.tw.clone());
+            self.w.l().registry.push((s.name.clone(), s.tw.clone(), waker.clone()));
             self.tasks.push(Task { name: s.name, tw: s.tw, waker, fut: Some(s.fut), polls: 0, pendings: 0 });
         }
     }
@@ -641,6 +653,20 @@ impl Exec {
             }
         };
         self.steps += 1;
+        // driver-wake rule: an application-side poll that leaves the protocol state machine with something to
+        // transmit must leave the connection driver runnable
+        let app = self.tasks[pick].class() != Class::Driver;
+        let before = if app { Some((drvwake::probe_all(&self.w, &self.hs), self.tasks[pick].op())) } else { None };
+        let r = self.poll_task(pick);
+        if let (Some((before, op)), false) = (before, matches!(r, Step::Panicked(_))) {
+            let after = drvwake::probe_all(&self.w, &self.hs);
+            let what = format!("task {} [{}] -> [{}]", self.tasks[pick].name, op, self.tasks[pick].op());
+            drvwake::judge(&before, &after, &self.hs, &self.log, &what);
+        }
+        r
+    }
+
+    fn poll_task(&mut self, pick: usize) -> Step {
         let t = &mut self.tasks[pick];
         t.tw.ready.store(false, SeqCst);
         t.polls += 1;
@@ -681,6 +707,17 @@ impl Exec {
 
     /// cancel a task from outside: drop its (pending) future and every handle it owns
     fn kill(&mut self, idx: usize) -> Result<(), String> {
+        let before = drvwake::probe_all(&self.w, &self.hs);
+        let r = self.kill_inner(idx);
+        if r.is_ok() {
+            let after = drvwake::probe_all(&self.w, &self.hs);
+            let what = format!("dropping task {} with every handle it owns", self.tasks[idx].name);
+            drvwake::judge(&before, &after, &self.hs, &self.log, &what);
+        }
+        r
+    }
+
+    fn kill_inner(&mut self, idx: usize) -> Result<(), String> {
         let t = &mut self.tasks[idx];
         if let Some(f) = t.fut.take() {
             let d = catch_unwind(AssertUnwindSafe(|| drop(f)));
@@ -839,6 +876,8 @@ struct Plan {
     extra_connects: usize,
     /// this case is a 0-RTT case (replaces the generic workload)
     zrtt: Option<ZrttPlan>,
+    /// this case is a quiescent single-event case (replaces the generic workload; harness/src/asyncsim/qev.rs)
+    qev: Option<qev::QevPlan>,
 }
 
 /// what is done, after the handshake, with the SendStream handle of an early (0-RTT) stream that the server
@@ -1016,6 +1055,7 @@ fn gen_plan(rng: &mut Rng) -> Plan {
         k_ep_accept: 1,
         extra_connects: 0,
         zrtt: None,
+        qev: None,
     };
     // ---- about a third of the cases: 2-3 CONCURRENT waiter tasks on the same condition, for every wait of the
     // API that goes through a shared Notify; the peer satisfies the condition one unit at a time, with pauses, so
@@ -1163,6 +1203,9 @@ struct CaseLog {
     closing: bool,
     /// only the close itself can end the connection (used to judge errors before `closing`)
     cancels: u64,
+    /// history for the recorded finding: calls of RecvStream::stop / drops of an unread RecvStream made, per
+    /// side and direction (0 = bi, 1 = uni), on a stream whose final size was already known
+    stop_known_final: [[u64; 2]; 2],
 }
 
 type Log = Arc<Mutex<CaseLog>>;
@@ -1378,7 +1421,17 @@ fn job_data(job: &Job) -> Vec<u8> {
     (0..job.len as u64).map(|o| content_byte(job.id as u64, o)).collect()
 }
 
-async fn reader(mut ctx: Ctx, job: Job, mut recv: RecvStream) {
+/// (history for the recorded finding) a stop()/drop of `recv` is about to happen: was its final size known?
+fn note_stop(ctx: &Ctx, side: usize, recv: &RecvStream) {
+    let Some(c) = drvwake::conn_of(&ctx.h, side) else { return };
+    if drvwake::final_size_known(&c, recv.id()) {
+        let d = if recv.id().dir() == quinn::Dir::Bi { 0 } else { 1 };
+        ctx.log.lock().unwrap().stop_known_final[side][d] += 1;
+        ctx.count("op:stop-or-drop-after-final-size-known");
+    }
+}
+
+async fn reader(mut ctx: Ctx, side: usize, job: Job, mut recv: RecvStream) {
     let slot = (job.id as u64, 0u8);
     let label = format!("read job={} mode={:?}", job.id, job.rmode);
     let mut got = 0u64;
@@ -1509,10 +1562,12 @@ async fn reader(mut ctx: Ctx, job: Job, mut recv: RecvStream) {
                     got += n as u64;
                 }
                 ctx.count("drop:recvstream-unread");
+                note_stop(&ctx, side, &recv);
             }
         }
         Fate::Stop(_) => {
             if !fin && err.is_none() {
+                note_stop(&ctx, side, &recv);
                 let _ = recv.stop(VarInt::from_u32(7));
                 ctx.count("op:stop");
             }
@@ -1710,7 +1765,7 @@ async fn opener(mut ctx: Ctx, side: usize, conn: Connection, bi: bool, w: usize,
         let f = sp.fwd.clone();
         ctx.spawn(format!("app:{}:writer:job{}", SIDE[side], f.id), Class::Job, move |c| writer(c, side, f, send));
         if let (Some(r), Some(b)) = (recv, sp.bwd.clone()) {
-            ctx.spawn(format!("app:{}:reader:job{}", SIDE[side], b.id), Class::Job, move |c| reader(c, b, r));
+            ctx.spawn(format!("app:{}:reader:job{}", SIDE[side], b.id), Class::Job, move |c| reader(c, side, b, r));
         }
         if gap {
             ctx.set_op("gap between opens");
@@ -1766,7 +1821,7 @@ async fn acceptor(mut ctx: Ctx, side: usize, conn: Connection, bi: bool, w: usiz
         }
         ctx.unit(format!("accept:{}:{}:{idx}", SIDE[side], bi));
         let f = plans[idx].fwd.clone();
-        ctx.spawn(format!("app:{}:reader:job{}", SIDE[side], f.id), Class::Job, move |c| reader(c, f, recv));
+        ctx.spawn(format!("app:{}:reader:job{}", SIDE[side], f.id), Class::Job, move |c| reader(c, side, f, recv));
         if let (Some(s), Some(b)) = (send, plans[idx].bwd.clone()) {
             ctx.spawn(format!("app:{}:writer:job{}", SIDE[side], b.id), Class::Job, move |c| writer(c, side, b, s));
         }
@@ -2631,7 +2686,14 @@ fn base_instant() -> Instant {
 fn run_case(seed: u64, case: u64) -> CaseOut {
     let cseed = seed.wrapping_mul(0x1_0000_01b3).wrapping_add(case.wrapping_mul(0x9E37_79B9)) ^ 0xc18;
     let mut rng = Rng::new(cseed);
-    let plan = Arc::new(gen_plan(&mut rng));
+    let mut plan = gen_plan(&mut rng);
+    // an eighth of the cases: quiescent single-event plans (own generator stream: the other cases keep their plans)
+    if case % 8 == 5 {
+        let mut qrng = Rng::new(cseed ^ 0x9e5_c18);
+        let q = qev::gen_qev(&mut qrng);
+        qev::apply(&mut plan, q);
+    }
+    let plan = Arc::new(plan);
     let addrs: [SocketAddr; 2] = ["127.0.0.1:50001".parse().unwrap(), "127.0.0.1:4433".parse().unwrap()];
     let world = World(Arc::new(Mutex::new(WorldInner {
         base: base_instant(),
@@ -2658,10 +2720,11 @@ fn run_case(seed: u64, case: u64) -> CaseOut {
         send_fail: [false; 2],
         io_errors: 0,
         transient_errors: 0,
+        registry: Vec::new(),
     })));
     let log: Log = Arc::new(Mutex::new(CaseLog::default()));
     let hs: Hs = Arc::new(Mutex::new(Handles::default()));
-    let mut ex = Exec { w: world.clone(), tasks: Vec::new(), rng: Rng::new(rng.next()), policy: plan.policy, steps: 0, polls_ready: 0, polls_pending: 0 };
+    let mut ex = Exec { w: world.clone(), hs: hs.clone(), log: log.clone(), tasks: Vec::new(), rng: Rng::new(rng.next()), policy: plan.policy, steps: 0, polls_ready: 0, polls_pending: 0 };
     let fail = |key: &str, what: String| {
         let mut l = log.lock().unwrap();
         if l.fails.len() < 20 {
@@ -2702,6 +2765,9 @@ fn run_case(seed: u64, case: u64) -> CaseOut {
                 root.spawn(format!("app:server:main{w}"), class, move |c| server_main(c, e, w, k, quota));
             }
         }
+        if plan.qev.is_some() {
+            root.spawn("app:qev:script".into(), Class::Job, qev::script);
+        }
         drop(e2);
         let mut h = hs.lock().unwrap();
         h.endpoint = [Some(epc), Some(eps)];
@@ -2729,13 +2795,42 @@ fn run_case(seed: u64, case: u64) -> CaseOut {
     });
     let mut graceful = false;
     let mut end = end;
-    // An opener stuck at quiescence: is stream credit available at the peer but not ANNOUNCED? quinn-proto queues
-    // MAX_STREAMS for credit freed by `RecvStream::stop` on a stream whose final size is already known only at the
-    // end of the next incoming packet. Make each side send one packet (a MAX_DATA raise) and look again: an
-    // opener that gets going now was not failed by the wake protocol.
-    if matches!(end, RunEnd::Deep | RunEnd::Quiescent) {
+    // An opener stuck at quiescence: is stream credit available at the peer but not ANNOUNCED? Look at the side
+    // that grants the credit (read-only hooks) BEFORE anything else happens:
+    //  * MAX_STREAMS queued and the driver asleep: the wake protocol lost it (own key);
+    //  * a stream freed but no MAX_STREAMS queued: quinn-proto queues MAX_STREAMS for credit freed by
+    //    `RecvStream::stop` on a stream whose final size is already known only at the end of the next incoming
+    //    packet — the recorded finding, reported under its key ONLY when this side's history has such a stop (or
+    //    drop of an unread RecvStream) for that direction; any other way of losing the announcement has its own key.
+    // Then make each side send one packet (a MAX_DATA raise) and look again: openers that get going now were
+    // parked for one of these reasons, anything still parked is judged by the general oracle below.
+    if plan.qev.is_none() && matches!(end, RunEnd::Deep | RunEnd::Quiescent) {
         let before = pending_tasks(&ex, |t, c| c == Class::Job && t.op().starts_with("open_"));
         if !before.is_empty() {
+            let mut verdicts: Vec<(&'static str, String)> = Vec::new();
+            for side in 0..2 {
+                let Some(c) = drvwake::conn_of(&hs, side) else { continue };
+                let p = drvwake::probe_conn(&world, &c);
+                for (d, kind) in [(0usize, "open_bi"), (1usize, "open_uni")] {
+                    // (openers of the OTHER side wait for this side's credit)
+                    let parked = before.iter().any(|t| t.starts_with(&format!("app:{}:", SIDE[1 - side])) && t.contains(&format!("[{kind}")));
+                    if !parked {
+                        continue;
+                    }
+                    let (queued, unannounced, max_remote, sent) = drvwake::credit_state(&c, d);
+                    let state = format!("{}: queued [{}], max_remote {max_remote}, announced {sent}, driver {} asleep={}", SIDE[side], drvwake::queued(&c), p.driver, p.asleep);
+                    if queued && p.asleep {
+                        verdicts.push((drvwake::KEY_E2E_QUEUED, format!("the MAX_STREAMS frame is queued but the connection driver was never woken ({state})")));
+                    } else if unannounced && !queued {
+                        let hist = log.lock().unwrap().stop_known_final[side][d];
+                        if hist > 0 {
+                            verdicts.push((drvwake::KEY_KNOWN_STOP, format!("the peer had freed a stream by stop()/drop after the final size was known ({hist} such call(s)); the MAX_STREAMS frame goes out only after an unrelated packet arrives there ({state})")));
+                        } else {
+                            verdicts.push((drvwake::KEY_CREDIT_NOT_ANNOUNCED, format!("a stream was freed but no MAX_STREAMS frame is queued, and no stop()/drop on a stream with known final size happened on that side ({state})")));
+                        }
+                    }
+                }
+            }
             for side in 0..2 {
                 let c = hs.lock().unwrap().conn[side].clone();
                 if let Some(c) = c {
@@ -2745,7 +2840,12 @@ fn run_case(seed: u64, case: u64) -> CaseOut {
             end = run(&mut ex, true, far, &mut |_| false);
             let after = pending_tasks(&ex, |t, c| c == Class::Job && t.op().starts_with("open_"));
             if after != before {
-                fail("c18-stream-credit-announced-only-after-next-packet", format!("quiescent with the connection open: stream openers were parked although the peer had freed a stream (stop() after the final size was known); the MAX_STREAMS frame went out only after an unrelated packet arrived there; parked: {}", before.join(" | ")));
+                if verdicts.is_empty() {
+                    verdicts.push(("c18-lost-wakeup", "stream openers were parked at quiescence and got going after an unrelated packet exchange, although the peer owed no stream credit that the hooks could see".into()));
+                }
+                for (k, v) in verdicts {
+                    fail(k, format!("quiescent with the connection open: stream openers were parked: {v}; parked: {}", before.join(" | ")));
+                }
             }
         }
     }
@@ -2899,6 +2999,7 @@ fn run_case(seed: u64, case: u64) -> CaseOut {
                 }
             }
         }
+        let probe_before = drvwake::probe_all(&world, &hs);
         let r = catch_unwind(AssertUnwindSafe(|| -> Result<(), String> {
             match plan.close {
                 CloseKind::Explicit(s) => {
@@ -2965,7 +3066,11 @@ fn run_case(seed: u64, case: u64) -> CaseOut {
             Ok(())
         }));
         match r {
-            Ok(Ok(())) => {}
+            Ok(Ok(())) => {
+                // the close action is an application-side call as well (close / set_* made by the controller)
+                let probe_after = drvwake::probe_all(&world, &hs);
+                drvwake::judge(&probe_before, &probe_after, &hs, &log, &format!("the close action {:?}", plan.close));
+            }
             Ok(Err(m)) => panicked = Some(m),
             Err(_) => panicked = Some(format!("close action {:?}: {}", plan.close, LAST_PANIC.with(|p| p.borrow().clone()))),
         }
@@ -3229,6 +3334,7 @@ fn main() {
     let mut samples = Vec::new();
     let (mut polls, mut nontrivial) = (0u64, 0u64);
     let only: Option<u64> = env::var("ASYNCSIM_CASE").ok().and_then(|x| x.parse().ok());
+    let mut per_key: BTreeMap<String, u32> = BTreeMap::new();
     for case in 0..n {
         if only.is_some_and(|c| c != case) {
             continue;
@@ -3256,7 +3362,11 @@ fn main() {
             samples.push(o.sample);
         }
         for f in o.fails {
-            if fails.len() < 40 {
+            // (at most 3 reports per key: a recorded finding that fires in many cases must not crowd out others)
+            let key = f.split_whitespace().next().unwrap_or("").to_string();
+            let n = per_key.entry(key).or_insert(0u32);
+            *n += 1;
+            if fails.len() < 40 && *n <= 3 {
                 fails.push(format!("{f} [seed={seed}]"));
             }
         }
